@@ -11,6 +11,7 @@ import (
 	"verif/harness/adjdrv"
 	"verif/harness/ocidrv"
 	"verif/harness/relaydrv"
+	"verif/harness/syncdrv"
 )
 
 func fail(err error) {
@@ -112,6 +113,30 @@ func main() {
 			fail(err)
 		}
 		fmt.Printf("{\"events\":%d}\n", n)
+	case "sync":
+		fs := flag.NewFlagSet(mod, flag.ExitOnError)
+		in := fs.String("in", "", "size profiles (ndjson)")
+		out := fs.String("out", "", "trace file")
+		fs.Int64("seed", 1, "unused")
+		fs.Parse(args)
+		n, err := syncdrv.Run(*in, *out)
+		if err != nil {
+			fail(err)
+		}
+		fmt.Printf("{\"events\":%d}\n", n)
+	case "sync-child":
+		fs := flag.NewFlagSet(mod, flag.ExitOnError)
+		n := fs.Int("n", 1, "scenario number")
+		scen := fs.String("scenario", "", "scenario json")
+		out := fs.String("out", "", "event file")
+		fs.Parse(args)
+		var sc syncdrv.Scenario
+		if err := json.Unmarshal([]byte(*scen), &sc); err != nil {
+			fail(err)
+		}
+		if err := syncdrv.RunChild(*n, sc, *out); err != nil {
+			fail(err)
+		}
 	default:
 		fail(fmt.Errorf("unknown module %q", mod))
 	}
